@@ -32,7 +32,7 @@ def _run_pack_on(root: str, prop: str) -> tuple[dict[str, bool], str | None]:
         return {}, "does not parse: " + prog.parse_failures[0]
     ctx = Ctx(prog, prop, "quick")
     try:
-        pack.run(ctx)
+        ctx.guarded(pack.run)
     except AnalysisError as exc:
         return {o.ident: o.ok for o in ctx.obs}, f"ANALYSIS-ERROR: {exc}"
     return {o.ident: o.ok for o in ctx.obs}, None
